@@ -854,15 +854,13 @@ def p_sum(ex, path, x, axis=None, **kw):
     add = lambda a, b: scalar_binop(ast.Add(), toI(a) if boollike(a) else a, toI(b) if boollike(b) else b)
     if all(x.axes[k].concrete() for k in axes):
         return reduce_concrete(x, axes, add, 0)
-    if len(axes) == 1:
-        return reduce_sym(ex, x, axes[0], "sum_red")
     conc = [k for k in axes if x.axes[k].concrete()]
     symb = [k for k in axes if not x.axes[k].concrete()]
-    if len(symb) == 1:
-        y = reduce_concrete(x, conc, add, 0)
-        ax = symb[0] - sum(1 for k in conc if k < symb[0])
-        return reduce_sym(ex, y, ax, "sum_red")
-    raise Unsupported("np.sum over several symbolic axes")
+    y = reduce_concrete(x, conc, add, 0) if conc else x
+    axs = sorted([k - sum(1 for c in conc if c < k) for k in symb], reverse=True)
+    for ax in axs:
+        y = reduce_sym(ex, y, ax, "sum_red") if isinstance(y, T) else y
+    return y
 
 
 @prim("ndarray.sum")
@@ -1010,3 +1008,27 @@ def install(extra=None):
     if extra:
         d.update(extra)
     return d
+
+
+@prim("np.take")
+def p_take(ex, path, a, idx, axis=None):
+    a = as_tensor(ex, path, a)
+    if axis is None:
+        raise Unsupported("np.take without axis")
+    ax = axis % a.ndim
+    items = [("slice", None, None, None)] * ax + [("idx", idx)] + [("slice", None, None, None)] * (a.ndim - ax - 1)
+    return ex.getitem_items(a, items, path)
+
+
+@prim("np.unique")
+def p_unique(ex, path, x):
+    x = as_tensor(ex, path, x)
+    its = items_of(x)
+    if its is not None and all(not is_sym(v) for v in its):
+        return from_list(ex, path, sorted(set(its)))
+    raise Unsupported("np.unique of symbolic values")
+
+
+@prim("np.array_equal")
+def p_array_equal(ex, path, a, b, **kw):
+    raise Unsupported("np.array_equal")
